@@ -5,7 +5,7 @@ From Morfuse Require Import C20.Model.
 
 Definition mode_of (m : meth) : mode :=
   match m with
-  | MAlloc => Shared
+  | MAlloc => Exclusive
   | MFree => Exclusive
   | MFreeAll => Exclusive
   | MCount => Exclusive
